@@ -83,6 +83,37 @@ ConvFails(r) ==
      \* (an empty output has no decodable tile members in some formats: then "no tiles" is the right reading)
      Fails("file", r.file.skip = 1 \/ (SameBag(r.file.tiles, exp) /\ (r.file.ok = 1 \/ exp = {}))))
 
+(* the same through the real command line (`versatiles convert <options> in out`): the options as a user types them select
+   and relocate exactly the tiles of the model.  Every source tile lies in the source coverage, so the expected output is the
+   moved tiles that fall into the selection.  Named deviation: no writer stores an EMPTY tile set through the command line
+   (versatiles: "invalid minzoom"; PMTiles / MBTiles: D22) -- an error exit is accepted exactly when the expected output is
+   empty; it is an error, not a wrong output. *)
+CliExpected(o, tiles) ==
+    { LET c == T(o.flip, o.swap, <<tiles[i][1], tiles[i][2], tiles[i][3]>>) IN <<c[1], c[2], c[3], tiles[i][4]>> :
+        i \in { j \in 1..Len(tiles) :
+                  LET c == T(o.flip, o.swap, <<tiles[j][1], tiles[j][2], tiles[j][3]>>)
+                  IN DContains(Sel(o, c[1]), c[2], c[3]) } }
+CliFails(r) ==
+    LET exp == CliExpected(r.opts, r.tiles) IN
+    Fails("cli_exit", r.exit = 0 \/ exp = {}) \cup
+    (IF r.exit # 0 THEN {} ELSE
+     Fails("cli_output", SameBag(r.file.tiles, exp) /\ (r.file.ok = 1 \/ exp = {})))
+\* the model's output does not depend on the source coverage as long as it contains the tiles
+ThmCliExpected ==
+    \A f \in {0, 1}, s \in {0, 1}, zmin \in {-1, 1}, b \in {0, 1} :
+        LET o == [flip |-> f, swap |-> s, zmin |-> zmin, zmax |-> -1, hasgeo |-> 1, border |-> b,
+                  geo |-> [L0 |-> 2, w |-> 1, n |-> 2, e |-> 5, s |-> 7]]
+            tiles == << <<1, 0, 1, 1>>, <<2, 0, 3, 2>>, <<2, 3, 1, 3>>, <<2, 1, 1, 4>> >>
+            cov == << <<1, 0, 1, 0, 1>>, <<2, 0, 1, 3, 3>> >>
+        IN ExpectedOut(o, cov, tiles) = CliExpected(o, tiles)
+
+CliRecompFails(r) ==
+    LET want == DeclaredOut(r.src_tc, r.target) IN
+    Fails("cli_exit", r.exit = 0) \cup
+    (IF r.exit # 0 THEN {} ELSE
+     Fails("cli_file_payload", r.file.ok = 1 /\ r.file.tiles = r.tiles /\ r.file.tc = want) \cup
+     Fails("cli_file_meta", r.file.ok = 0 \/ r.file.meta_ok = 1))
+
 (* C04: recompression.  ids in `lookups'/`walk'/`file' were obtained by decoding the delivered bytes with
    the DECLARED output codec and comparing with the raw source payload. *)
 RecompFails(r) ==
